@@ -2,6 +2,7 @@
 from __future__ import annotations
 
 import asyncio
+import base64
 
 from vf import bufmon, devmon, fullstack, stack
 from vf.gen import drivers as D
@@ -160,6 +161,20 @@ async def session(ctx, case):
             return None
 
         if direction == "c2d":
+            if n % 4 == 2:
+                # first an upload that is incomplete in the sense of its own declaration: well-formed, the base64 decodes cleanly, but
+                # to fewer bytes than `size` says (a payload cut at a multiple of four characters, a compressed upload)
+                b64 = base64.b64encode(data)
+                cut = b64[:max(4, (len(b64) // 2) // 4 * 4)] if len(b64) >= 8 else b"QUJD"
+                raw = (b'<newBLOBVector device="CAM" name="IMG"><oneBLOB name="IMG_E1" size="%d" format=".cut">' % (len(data) + 99)) + cut + b'</oneBLOB></newBLOBVector>\n'
+                if len(raw) < 1900:
+                    links[0].c_writer.write(raw)
+                    await sess.quiesce()
+                    ctx.count("uploads_shorter_than_their_declared_size")
+                    p = problems()
+                    if p:
+                        ctx.violate(p[0] + ":after-an-upload-shorter-than-declared", p[1], case)
+                        return False
             cvec = client.get_device("CAM").get_vector("IMG")
             upload = values.BLOB(data, fmt)
             cvec.get_element("IMG_E0").value = upload
